@@ -88,7 +88,7 @@ proof! {
 
 // ---- C05.b: terminal positions of lone-king families -----------------------------------------------
 
-fn terminal_check(wtm: bool, men: &[(usize, u8)], tag: &str) {
+fn terminal_check(wtm: bool, men: &[(usize, u8)], tag: &str) -> (bool, bool) {
     let p = family(wtm, men, tag);
     let persp_white: bool = kani::any();
     let ply: usize = kani::any();
@@ -108,61 +108,78 @@ fn terminal_check(wtm: bool, men: &[(usize, u8)], tag: &str) {
     } else {
         assert!(!e.is_terminal(), "a position with a legal move never scores as mate");
     }
-    kani::cover!(!has_move && in_check, "checkmate position in the family");
-    kani::cover!(has_move && in_check, "check with an escape");
+    (has_move, in_check)
 }
 
 proof_eval! {
     fn krk_black_to_move() {
-        terminal_check(false, &[(0, 4)], "c05 krk_black_to_move");
+        let (hm, ck) = terminal_check(false, &[(0, 4)], "c05 krk_black_to_move");
+        kani::cover!(!hm && ck, "checkmate position in the family");
+        kani::cover!(hm && ck, "check with an escape");
     }
 }
 
 proof_eval! {
     fn krk_white_to_move() {
-        terminal_check(true, &[(1, 4)], "c05 krk_white_to_move");
+        let (hm, ck) = terminal_check(true, &[(1, 4)], "c05 krk_white_to_move");
+        kani::cover!(!hm && ck, "checkmate position in the family");
+        kani::cover!(hm && ck, "check with an escape");
     }
 }
 
 proof_eval! {
     fn kqk_black_to_move() {
-        terminal_check(false, &[(0, 5)], "c05 kqk_black_to_move");
+        let (hm, ck) = terminal_check(false, &[(0, 5)], "c05 kqk_black_to_move");
+        kani::cover!(!hm && ck, "checkmate position in the family");
+        kani::cover!(hm && ck, "check with an escape");
     }
 }
 
 proof_eval! {
     fn kqk_white_to_move() {
-        terminal_check(true, &[(1, 5)], "c05 kqk_white_to_move");
+        let (hm, ck) = terminal_check(true, &[(1, 5)], "c05 kqk_white_to_move");
+        kani::cover!(!hm && ck, "checkmate position in the family");
+        kani::cover!(hm && ck, "check with an escape");
     }
 }
 
 proof_eval! {
     fn kpk_black_to_move() {
-        terminal_check(false, &[(0, 1)], "c05 kpk_black_to_move");
+        let (hm, ck) = terminal_check(false, &[(0, 1)], "c05 kpk_black_to_move");
+        kani::cover!(!hm && !ck, "stalemate position in the family");
+        kani::cover!(hm && ck, "check with an escape");
     }
 }
 
 proof_eval! {
     fn kbnk_black_to_move() {
-        terminal_check(false, &[(0, 3), (0, 2)], "c05 kbnk_black_to_move");
+        let (hm, ck) = terminal_check(false, &[(0, 3), (0, 2)], "c05 kbnk_black_to_move");
+        kani::cover!(!hm && ck, "checkmate position in the family");
+        kani::cover!(hm && ck, "check with an escape");
     }
 }
 
 proof_eval! {
     fn krrk_white_to_move() {
-        terminal_check(true, &[(1, 4), (1, 4)], "c05 krrk_white_to_move");
+        let (hm, ck) = terminal_check(true, &[(1, 4), (1, 4)], "c05 krrk_white_to_move");
+        kani::cover!(!hm && ck, "checkmate position in the family");
+        kani::cover!(hm && ck, "check with an escape");
     }
 }
 
 proof_eval! {
     fn kbbk_black_to_move() {
-        terminal_check(false, &[(0, 3), (0, 3)], "c05 kbbk_black_to_move");
+        let (hm, ck) = terminal_check(false, &[(0, 3), (0, 3)], "c05 kbbk_black_to_move");
+        kani::cover!(!hm && ck, "checkmate position in the family");
+        kani::cover!(hm && ck, "check with an escape");
     }
 }
 
 proof_eval! {
     fn kqrk_black_to_move() {
-        terminal_check(false, &[(0, 5), (0, 4)], "c05 kqrk_black_to_move");
+        let (hm, ck) = terminal_check(false, &[(0, 5), (0, 4)], "c05 kqrk_black_to_move");
+        kani::cover!(!hm && ck, "checkmate position in the family");
+        kani::cover!(hm && ck, "check with an escape");
     }
 }
 
